@@ -230,6 +230,15 @@ def run_kani(d, modules, target_dir, harness_timeout=120, need_stubbing=False, e
             break
         errs, unl = parse_rustc_errors(out)
         bad = [m for m in mods if m.name in errs]
+        if not bad and re.search(r'interrupted by SIG|overflowed its stack|signal: \d+|proc-macro derive panicked|unexpectedly panicked', out):
+            # the compiler itself died while expanding some module (a derive that recurses or aborts): find which by bisection with a
+            # plain `cargo check` of the same crate, report those modules as compiler verdicts and go on without them
+            crashed = _bisect_crashing_modules(d, mods, target_dir)
+            if crashed:
+                for m in crashed:
+                    errs[m.name] = ['the compiler crashed while expanding this module (stack overflow / abort inside the derive): ' +
+                                    '; '.join(l.strip() for l in out.splitlines() if re.search(r'interrupted by SIG|overflowed its stack|signal: \d+', l))[:300]]
+                bad = crashed
         if not bad:
             kr.fatal = 'kani build failed without a module-located error:\n' + '\n'.join(out.splitlines()[-40:])
             kr.wall_s = time.time() - t0
@@ -260,6 +269,29 @@ def run_kani(d, modules, target_dir, harness_timeout=120, need_stubbing=False, e
     kr.wall_s = time.time() - t0
     os.remove(res_json)
     return kr, mods
+
+
+def _bisect_crashing_modules(d, mods, target_dir):
+    """-> the modules whose presence makes a plain `cargo check` of the harness crate crash the compiler (at most 4 are looked for)"""
+    lib = open(os.path.join(d, 'src', 'lib.rs')).read()
+
+    def crashes(subset):
+        _rewrite_lib(d, subset)
+        rc, out = sh(['cargo', 'check', '--quiet', '--lib', '--target-dir', target_dir + '-bisect'], cwd=d, env={'RUSTFLAGS': '-Awarnings'}, timeout=1800)
+        return rc != 0 and bool(re.search(r'interrupted by SIG|overflowed its stack|signal: \d+|unexpectedly panicked', out))
+    found = []
+    try:
+        pool = list(mods)
+        while len(found) < 4 and pool and crashes(pool):
+            lo = pool
+            while len(lo) > 1:
+                half = lo[:len(lo) // 2]
+                lo = half if crashes(half) else lo[len(lo) // 2:]
+            found.append(lo[0])
+            pool = [m for m in pool if m is not lo[0]]
+    finally:
+        open(os.path.join(d, 'src', 'lib.rs'), 'w').write(lib)
+    return found
 
 
 def _rewrite_lib(d, mods):
@@ -465,6 +497,30 @@ def evaluate(prop, tier, modules, kr, alive, d, target_dir, need_stubbing=False,
             failed = r['failed']
             descs = [f"{c['cat']}: {c['desc']}" for c in failed][:6]
             if not failed:
+                # no verdict from the solver (timeout / out of memory).  Never a pass; before settling for "inconclusive", run the same
+                # harness natively on a few fixed inputs: a failing assertion there is a reproduced violation (found by execution, said so)
+                smoke = None
+                if len(oc.violations) < MAX_REPLAYS:
+                    dst = os.path.join(replay_root, f'{m.name}__{h.name}')
+                    make_replay_crate(dst, m, features=features, lib_attrs=lib_attrs)
+                    for vals in ([], [[1]] * 16, [[2]] * 16, [[255]] * 16):
+                        res, outs = native_replay(dst, full, vals, native_target, profiles=('dev',), miri=False)
+                        oc.replays += 1
+                        if res.get('dev') == 'panic':
+                            smoke = (vals, res, outs.get('dev', '')[-800:])
+                            break
+                    if smoke:
+                        spec = ';'.join(','.join(str(b) for b in v) for v in smoke[0])
+                        with open(os.path.join(dst, 'REPLAY.md'), 'w') as f:
+                            f.write(f'property {prop}, config: {m.cfgid}\nharness: {full}\nthe solver gave no verdict ({r["err"]}); the harness run natively on fixed inputs fails:\n\n'
+                                    f'replay: VERIF_REPLAY_VALS="{spec}" cargo run --bin replay -- {full}\n\n{smoke[2]}\n')
+                        with open(os.path.join(dst, 'run.sh'), 'w') as f:
+                            f.write(f'#!/bin/sh\ncd "$(dirname "$0")" && VERIF_REPLAY_VALS="{spec}" CARGO_NET_OFFLINE=true cargo run --bin replay -- {full}\n')
+                        os.chmod(os.path.join(dst, 'run.sh'), 0o755)
+                        oc.violations.append(dict(module=m.name, harness=h.name, what='harness assertion fails natively on fixed inputs (the solver itself timed out: found by execution, not by the solver)',
+                                                  replay=dst, config=m.cfgid, how='native-smoke', vals=smoke[0]))
+                        continue
+                    shutil.rmtree(dst, ignore_errors=True)
                 oc.inconclusive.append(f'{full}: kani status {r["status"]} without a failed check ({r["err"]})')
                 continue
             if all(c['status'] in ('Undetermined',) for c in failed) or any('unwinding assertion' in (c['desc'] or '') for c in failed):
